@@ -144,3 +144,13 @@ M("c11-factor2-int", "C11", K, "    factor2 = nchans / nsubs\n", "    factor2 = 
 M("c11-tobs-block", "C11", K, "    tobs = total_nsamps * tsamp\n", "    tobs = nsamps * tsamp\n", "acceleration term uses the block length")
 M("c11-ts-fold-total", "C11", T, "            accel,\n            self.data.size,\n            self.data.size,\n            1,\n            nbins,", "            accel,\n            self.data.size - 1,\n            self.data.size,\n            1,\n            nbins,", "time-series fold passes N-1 as the total")
 M("c11-fold-delay-chan", "C11", K, "            val = inarray[nchans * (isamp + delays[ichan]) + ichan]\n            fold_ar[pos2] += val", "            val = inarray[nchans * (isamp + delays[ichan] - (delays[ichan] > 3)) + ichan]\n            fold_ar[pos2] += val", "delays above 3 samples applied one short")
+
+# ---- C12
+FS = "sigpyproc/fourierseries.py"
+M("c12-conv-slice", "C12", K, "    ret = np.fft.irfft(sp1 * sp2, n_good)\n    return ret[:n]", "    ret = np.fft.irfft(sp1 * sp2, n_good)\n    return ret[: n1 + n2]")
+M("c12-correlate-no-reverse", "C12", T, "        other_data_conj = np.conj(other_data[::-1])", "        other_data_conj = np.conj(other_data)")
+M("c12-rfft-header-length", "C12", T, '        hdr_changes = {"nsamples": n_good}\n        return fourierseries.FourierSeries(', '        hdr_changes = {"nsamples": n_good - (n_good % 2)}\n        return fourierseries.FourierSeries(', "odd transform lengths recorded one short")
+M("c12-ifft-no-length", "C12", FS, "        tim_ar = ifftn(self.data, self.header.nsamples)", "        tim_ar = ifftn(self.data)", "original F12")
+M("c12-conv-goodsize", "C12", K, "    n_good = nb_fft_good_size(n, real=True)\n    sp1 = np.fft.rfft(in1, n_good)", "    n_good = nb_fft_good_size(max(n1, n2) + min(n1, n2) // 2, real=True)\n    sp1 = np.fft.rfft(in1, n_good)", "transform too short when the kernel is longer than 2 taps: circular wrap-around")
+M("c12-mspec", "C12", K, "        mspec[i] = np.sqrt(fspec[i].real ** 2 + fspec[i].imag ** 2)", "        mspec[i] = max(abs(fspec[i].real), abs(fspec[i].imag))")
+M("c12-correlate-operand", "C12", T, "            other_data = other.data\n        elif isinstance(other, np.ndarray):", "            other_data = other.data[: max(1, other.data.size - (other.data.size > 7))]\n        elif isinstance(other, np.ndarray):", "TimeSeries operands longer than 7 lose their last sample")
